@@ -448,6 +448,7 @@ type res =
 | REmpty
 | RDisc
 | RTimeout
+| RCancel
 
 type spc =
 | SIdle
@@ -598,7 +599,7 @@ type action =
 | CloneRx of nat * nat
 | DropRx of nat
 | RStep of nat
-| Fire of nat
+| Fire of nat * bool
 | Send of nat
 | CloneTx of nat * nat
 | DropTx of nat
@@ -809,15 +810,24 @@ let step fix7 fix7b fix7c s = function
             (app s.drpd (v :: [])) s.hold s.pend s.rep s.dropper s.livet
             s.liver s.freed))
    | _ -> None)
-| Fire r ->
+| Fire (r, c) ->
   let x = s.rv0 r in
   (match x.rp with
    | WB ->
-     if (&&) x.rtimed (negb x.rgr)
-     then Some
-            (mk s.q s.sv (rm r s.wq) s.txp s.rxp
-              (upd s.rv0 r (r_ret x RTimeout)) s.sd s.sent s.rlog s.drpd
-              s.hold s.pend s.rep s.dropper s.livet s.liver s.freed)
+     if (||) c x.rtimed
+     then if x.rgr
+          then let rvm =
+                 upd s.rv0 r (r_ret x (if c then RCancel else RTimeout))
+               in
+               Some
+               (mk s.q (post_sv s) (post_wq s) s.txp s.rxp (post_Rv s rvm)
+                 s.sd s.sent s.rlog s.drpd (post_hold s (rm r s.hold)) s.pend
+                 s.rep s.dropper s.livet s.liver s.freed)
+          else Some
+                 (mk s.q s.sv (rm r s.wq) s.txp s.rxp
+                   (upd s.rv0 r (r_ret x (if c then RCancel else RTimeout)))
+                   s.sd s.sent s.rlog s.drpd s.hold s.pend s.rep s.dropper
+                   s.livet s.liver s.freed)
      else None
    | _ -> None)
 | Send a ->
